@@ -878,3 +878,45 @@ func shortSpec(u1 *PsipURI, buf1 []byte, u2 *PsipURI, buf2 []byte, flags URICmpF
 		(flags&URICmpSkipPass != 0 || fieldEq(buf1, u1.Pass, buf2, u2.Pass)) &&
 		fieldCiEq(buf1, u1.Host, buf2, u2.Host)
 }
+
+// ---- name-addr values: nesting of the reported fields (C09) ----
+
+func fbZero3(p *PFromBody) bool { return pfZero(p.URI) && pfZero(p.Params) && pfZero(p.Tag) }
+
+// nameBefore: the display name, if any, lies inside the value and ends before the URI (the '<' is between)
+func nameBefore(p *PFromBody, lim int) bool {
+	return pfZero(p.Name) || (p.V.Offs <= p.Name.Offs && fend(p.Name) < lim)
+}
+
+// fbNest: the invariant behind the nesting facts, by automaton state (s: start of the component being scanned)
+func fbNest(p *PFromBody, i int, s int) bool {
+	st := p.state
+	possible := st == fbNewPossibleParam || st == fbPossibleParamName || st == fbPossibleParamNameEnd ||
+		st == fbNewPossibleVal || st == fbPossibleVal || st == fbPossibleValEnd || st == fbQuotedPossibleVal
+	param := st == fbNewParam || st == fbParamName || st == fbParamNameEnd || st == fbNewParamVal ||
+		st == fbParamVal || st == fbParamValEnd || st == fbQuotedVal
+	inval := st == fbNewParamVal || st == fbParamVal || st == fbParamValEnd || st == fbQuotedVal ||
+		st == fbNewPossibleVal || st == fbPossibleVal || st == fbPossibleValEnd || st == fbQuotedPossibleVal
+	return (st != fbInit || (pfZero(p.V) && pfZero(p.Name) && fbZero3(p))) &&
+		(st != fbNameOrURI || (int(p.V.Offs) == s && p.V.Len == 0 && s < i && pfZero(p.Name) && fbZero3(p))) &&
+		(st != fbNameOrURIEnd || (p.URI == p.V && int(p.V.Offs) == s && fend(p.V) <= i && pfZero(p.Name) && pfZero(p.Params) && pfZero(p.Tag))) &&
+		((st != fbName && st != fbQuoted) || (fbZero3(p) && pfZero(p.Name) && int(p.V.Offs) == s && s < i)) &&
+		(st != fbURI || (fbZero3(p) && int(p.V.Offs) < s && s <= i && nameBefore(p, s))) &&
+		(st != fbURIFound || (pfZero(p.Params) && pfZero(p.Tag) && fend(p.URI)+1 == fend(p.V) && fend(p.V) <= i &&
+			p.V.Offs < p.URI.Offs && nameBefore(p, int(p.URI.Offs)))) &&
+		(!param || (p.V.Offs < p.URI.Offs && fend(p.URI)+1 == fend(p.V) && fend(p.V) <= i && nameBefore(p, int(p.URI.Offs)))) &&
+		(!possible || (p.URI.Offs == p.V.Offs && pfZero(p.Name) && fend(p.URI) <= fend(p.V) && fend(p.V) <= i && fend(p.URI) < i)) &&
+		((!param && !possible) || ((p.Params.Offs == 0 || (fend(p.URI) < int(p.Params.Offs) && int(p.Params.Offs) <= i && p.Params.Len == 0)) &&
+			(p.Tag.Offs == 0 || (p.Params.Offs != 0 && p.Params.Offs <= p.Tag.Offs && fend(p.Tag) <= i)))) &&
+		(!inval || (p.Params.Offs != 0 && int(p.Params.Offs) <= p.vstart)) &&
+		((st != fbParamName && st != fbParamNameEnd && st != fbPossibleParamName && st != fbPossibleParamNameEnd) || p.Params.Offs != 0) &&
+		(st != fbStar || (p.V.Len == 1 && fbZero3(p) && pfZero(p.Name) && fend(p.V) <= i))
+}
+
+// fbNested: what a finished value guarantees: display name, URI and parameters lie inside the value, in
+// that order; the tag lies inside the parameters
+func fbNested(p *PFromBody) bool {
+	return p.V.Offs <= p.URI.Offs && fend(p.URI) <= fend(p.V) && nameBefore(p, int(p.URI.Offs)) &&
+		(p.Params.Offs == 0 || (fend(p.URI) < int(p.Params.Offs) && fend(p.Params) == fend(p.V))) &&
+		(p.Tag.Offs == 0 || (p.Params.Offs != 0 && p.Params.Offs <= p.Tag.Offs && fend(p.Tag) <= fend(p.Params)))
+}
